@@ -520,6 +520,16 @@ def plan(tier, seed):
     add('pda', [2, 1, 1, 1], [['%'], 'ε', 'k'], 2, 16)
     add('tm', [1, 2], ['_', False, {'names': ['epsilon']}], 2, 8 if q else 2)
     add('tm', [1, 3], ['□', False, {'gamma': ['a', '%', '□'], 'sigma': ['a'], 'names': ['stack_symbols']}], 4, 64 if q else 16, 4 if q else 1)
+    # wave 5: keywords in another letter case (Final, Initial, ...), names with non-decimal digit characters, generated-looking names
+    for sch in ('K', 'u', 'g'):
+        add('dfa', [2, 1], sch, 2, 2)
+        add('dfa', [2, 2], sch, 8, 16 if q else 4)
+        add('nfa', [2, 1, 2], ['_', sch], 4, 16 if q else 4)
+        add('pda', [2, 1, 1, 1], [['x'], '_', sch], 2, 16)
+    add('dfa', [3, 1], 'K', 8, 16 if q else 4)
+    add('tm', [1, 2], ['_', False, {'names': ['Blank']}], 2, 8 if q else 2)
+    add('tm', [1, 2], ['□', False, {'names': ['Accept']}], 2, 8 if q else 2)
+    add('tm', [1, 3], ['_', False, {'gamma': ['a', '□', '_'], 'sigma': ['a'], 'names': ['Reject']}], 4, 64 if q else 16, 4 if q else 1)
     for (stack, eps) in ((['x'], '_'), (['$'], 'ε'), (['x'], 'e')):
         add('pda', [1, 1, 1, 3], [stack, eps], 2, 4)
         add('pda', [2, 1, 1, 2], [stack, eps], 16, 64 if q else 16)
@@ -531,4 +541,4 @@ def plan(tier, seed):
             'exhaustive': True,
             'rule': 'every known automaton of the spaces rendered in every well-formed layout (layout stride per space, offset rotating with the instance index) must parse to exactly that automaton with the documented defaults; every single-fault corruption of its canonical text must raise; constructor-guarded corruptions must raise or yield a valid object; every returned object is re-validated by oracle code; non-trivial = automaton with >= 2 edges',
             'assumptions': ['only whole-line % comments are well formed', 'accept/reject lines are omitted only together with the states line and only for states literally named accept/reject',
-                            'non-deterministic TM descriptions are not in the fault list (the property restricts that clause to DFAs)', 'state names that are keywords of other formats (accept, reject, blank for NFA / PDA; epsilon, stack_symbols for TM), % as stack / tape symbol, and the set / pair / word-or-set state label formats of the exercise checkers are part of the space']}
+                            'non-deterministic TM descriptions are not in the fault list (the property restricts that clause to DFAs)', 'state names that are keywords of other formats (accept, reject, blank for NFA / PDA; epsilon, stack_symbols for TM), % as stack / tape symbol, and the set / pair / word-or-set state label formats of the exercise checkers are part of the space', 'wave 5: state names that differ from a keyword only in letter case, names with non-decimal digits / outside latin-1, generated-looking names']}
